@@ -1,6 +1,6 @@
 (* Proofs_C10.v — atmospheric composition is a valid mixture. *)
 From Coq Require Import ZArith Reals List Bool Arith Lia Lra.
-From TV Require Import Num ListNum ListAux ListNumR Proofs_C01 Proofs_C03 Proofs_C13 Model_C10.
+From TV Require Import Num ListNum ListAux ListNumR Proofs_C01 Proofs_C03 Proofs_C13 Model_C12 Proofs_C12 Model_C10.
 Import ListNotations.
 Local Open Scope R_scope.
 
@@ -205,3 +205,13 @@ Proof. intros Hp Hlp a b.
     - apply Rmult_le_reg_r with (lps - lpt); [lra|]. unfold Rdiv. rewrite Rmult_assoc, Rinv_l by lra. lra. }
   assert (Heq : a * lp + b = (1 - u) * vt + u * vs) by (unfold b, a, u; field; lra).
   rewrite Heq. unfold Rmin, Rmax. destruct (Rle_dec vs vt); nra. Qed.
+
+(* ---- two-layer gas: log10 of the mixing ratio stays between log10 of the surface and of the top value in every
+   layer, smoothing included ---- *)
+Theorem twolayer_between (lnP : list R) (start_l end_l : nat) (ls lt : R) (wsize0 : nat) :
+  Forall (fun x => Rmin ls lt <= x <= Rmax ls lt) (@twolayer_log R RNum lnP start_l end_l ls lt wsize0).
+Proof. unfold twolayer_log. apply (smooth_profile_bounded lnP _ [ls; ls; lt; lt] wsize0 (Rmin ls lt) (Rmax ls lt)).
+  - reflexivity.
+  - discriminate.
+  - unfold within. pose proof (Rmin_l ls lt). pose proof (Rmin_r ls lt). pose proof (Rmax_l ls lt). pose proof (Rmax_r ls lt).
+    repeat (apply Forall_cons; [split; lra|]). apply Forall_nil. Qed.
